@@ -8,7 +8,7 @@ RULE = ("frame dictionaries with any subset of frame ids in 0..9 (never empty), 
         "requested frame counts ≥ last id + 1 or none, width/height/depth/fps incl. non-integral fps; loaded with the real load_openpose and compared cell by cell with the JSON (oracle) and with the Lean model; "
         "conforming file names (digit-free and digit-bearing prefixes, several digit groups, unicode) through get_frame_id vs the Lean matcher and Python's re, and through load_openpose_directory in a scratch directory; "
         "non-trivial = distinct frame dictionary / file name")
-ASSUMPTIONS = ["a person's component lists have 3 numbers per keypoint of the component (the shape OpenPose writes)", "conforming file names: no earlier occurrence of '_keypoints' + any char + 'json' directly followed by the digit group"]
+ASSUMPTIONS = ["a person's component list has 3 numbers per keypoint of the component, or is empty (a part OpenPose was not asked to detect): the shapes OpenPose writes", "conforming file names: no earlier occurrence of '_keypoints' + any char + 'json' directly followed by the digit group"]
 
 
 def gen_frames(rng, comps):
@@ -21,11 +21,19 @@ def gen_frames(rng, comps):
         people = []
         for _ in range(rng.choice([0, 1, 1, 2, 3])):
             person = {}
+            disabled = set()
+            if rng.random() < 0.3:                                   # OpenPose run without --face / --hand: those parts are written as empty lists
+                disabled = set(rng.sample([name for name, _ in comps[1:]], rng.randint(1, len(comps) - 1)))
             for name, n in comps:
                 nums = []
-                for _ in range(n):
+                for _ in range(0 if name in disabled else n):
                     nums += [val(), val(), 0.0 if rng.random() < 0.25 else round(rng.random(), 3) or 0.5]
                 person[name] = nums
+            if rng.random() < 0.4:                                   # JSON objects are unordered: the same person with its keys in another order
+                keys = list(person); rng.shuffle(keys)
+                person = {k: person[k] for k in keys}
+            if rng.random() < 0.3:
+                person = dict(person, person_id=[-1])                # a key that is not a component
             people.append(person)
         frames[fid] = {"people": people}
     return frames
@@ -46,7 +54,7 @@ def run(ctx):
         cases.append((frames, fps, nf, dims))
     reqs = []
     for frames, fps, nf, dims in cases:
-        reqs.append({"op": "openpose", "total_points": total, "fps": f64_bits(np.float32(fps)), **({"num_frames": nf} if nf is not None else {}),
+        reqs.append({"op": "openpose", "sizes": [n for _, n in comps], "fps": f64_bits(np.float32(fps)), **({"num_frames": nf} if nf is not None else {}),
                      "frames": [{"id": fid, "people": [[[f64_bits(np.float32(x)) for x in person[name]] for name, _ in comps] for person in fr["people"]]} for fid, fr in frames.items()]})
     outs = ctx.driver.run(reqs)
     for (frames, fps, nf, dims), mo in zip(cases, outs):
@@ -73,7 +81,7 @@ def run(ctx):
                 k = 0
                 for name, n in comps:
                     for j in range(n):
-                        if person is None:
+                        if person is None or not person[name]:          # absent person, or a part OpenPose was not asked for
                             want = (0.0, 0.0, 0.0)
                         else:
                             nums = person[name]; want = (nums[3 * j], nums[3 * j + 1], nums[3 * j + 2])
